@@ -247,6 +247,15 @@ def cmd_replay(a):
     d = json.load(open(a.file))
     print("obligation:", d.get("obligation"))
     print("description:", d.get("description") or d.get("why"))
+    if d.get("engine") == "N":
+        # replay on the real layout classes of the working tree through the native driver
+        from .nat import run as nrun
+        res = nrun.run_cases([d["driver_line"]])
+        r = list(res.values())[0]
+        print("driver line:", d["driver_line"])
+        print("library on the working tree:", r, "| validity of result:", r.validity, "| purity flag:", r.pure)
+        print("contract:", d.get("why") or d.get("desc"))
+        return 1
     if "input" not in d or "symbol" not in d:
         print("no concrete input recorded (no-failing-input-found); solver output follows")
         print(d.get("solver_model"))
